@@ -65,6 +65,8 @@ def gen(seed, tier, which):
             out.append({'kind': 'srv_resp', 'class': 'srv_resp', 'method': 'POST', 'version': rnd.choice(['HTTP/1.1', 'HTTP/2.0']), 'ctype': rnd.choice(WEB),
                         'accept': accept, 'text': accept in TEXT, 'chunks_req': [], 'chunks_resp': cut(rnd, fb), 'trailers': rand_trailers(rnd, any_map=True),
                         'inner_status': 200, 'frames_bytes': list(fb)})
+            if len(out) % 3 == 1:      # the inner gRPC service labels its response with a subtype (another gRPC stack behind the bridge)
+                out[-1]['inner_ctype'] = ('application/grpc+proto', 'application/grpc+json')[len(out) % 2]
         for k in range(n):
             # (every fortieth request carries a payload around / above the layer's 8 KiB buffer constant)
             payload = bytes(rnd.randrange(256) for _ in range(rnd.choice([8185, 8186, 9000, 20000]) if k % 40 == 7 else rnd.choice([0, 1, 2, 3, 4, 5, 17, 60, 200])))
